@@ -400,6 +400,8 @@ def family(name: str, n: int) -> Mol:
         k, e = path(n); mol = from_edges(k, e)
     elif name == "cycle":
         k, e = cycle(n); mol = from_edges(k, e)
+    elif name == "cycle13c":  # large ring with ONE labelled atom: refinement needs n/2 rounds although the skeleton is vertex-transitive
+        k, e = cycle(n); mol = from_edges(k, e); mol.atoms[0].mass = 13
     elif name == "ladder":
         h = max(1, n // 2)
         e = [(i, i + 1) for i in range(h - 1)] + [(h + i, h + i + 1) for i in range(h - 1)] + [(i, h + i) for i in range(h)]
